@@ -297,6 +297,10 @@ def enum_scope(pid, tier, seed, wd, bins, out):
         if cur is None: continue
         if c in ("end",): continue
         if c.startswith(("clear", "fork", "forkfrom", "swap", "serde")): cur["ok"] = False      # keep shapes simple
+        # observation-only commands of the seed history are not replayed 100 000 times (arena dumps stay: the step
+        # monitor judges a call only against a state dumped right before it)
+        if c.split()[0] in ("qi", "qx", "qd", "ql", "qf", "qp", "qav", "qeq", "drops", "rend"):
+            continue
         cur["ops"].append(c)
         if ob.startswith("r id "): cur["ids"].append(ob.split()[2])
         if ob.startswith("m"): cur["flags"] = ob[2:] if len(ob) > 2 else ""
